@@ -386,10 +386,17 @@ def index_signature_field(fam, cname):
             continue
         t = ann
         elem = None
+        # `readonly X[]`, `ReadonlyArray<X>`, `Array<X>`, `X[]`; X may be a local type alias of the record type
+        while t.get("type") == "TsTypeOperator" and t.get("op") == "readonly":
+            t = t["typeAnnotation"]
         if t.get("type") == "TsArrayType":
             elem = t["elemType"]
-        elif t.get("type") == "TsTypeReference" and t["typeName"].get("value") == "Array" and t.get("typeParams"):
+        elif t.get("type") == "TsTypeReference" and t["typeName"].get("value") in ("Array", "ReadonlyArray") and t.get("typeParams"):
             elem = t["typeParams"]["params"][0]
+        hops = 0
+        while elem is not None and elem.get("type") == "TsTypeReference" and elem["typeName"].get("value") in fam.mod.type_aliases and hops < 3:
+            elem = fam.mod.type_aliases[elem["typeName"]["value"]]["typeAnnotation"]
+            hops += 1
         if elem is not None and elem.get("type") == "TsTypeLiteral":
             members = {}
             for mbr in elem["members"]:
